@@ -51,8 +51,11 @@ def gen(rng, maxlen):
             ops.append({"op": "delete", "app": rng.choice(PROVIDERS + (3,)), "pick": rng.randrange(1 << 16), "unknown": rng.random() < 0.15})
         elif r < 0.80:
             ops.append({"op": "query", "app": rng.choice(CONSUMERS + (9,)), "types": rng.choice(((2,), (1,), (16,), (2, 1), TYPES))})
-        elif r < 0.93:
+        elif r < 0.92:
             ops.append({"op": "adv", "dt": rng.choice((0.2, 0.6, 1.0, 1.5, 3.0, 7.0, 30.0, 61.0))})
+        elif r < 0.93:
+            # the station's time source is corrected backwards (first GNSS fix, NTP step)
+            ops.append({"op": "set_back", "dt": rng.choice((2.0, 5.0, 12.0, 45.0))})
         elif r < 0.98:
             ops.append({"op": "maint"})
         else:
@@ -267,6 +270,9 @@ def run_case(c, res):
                                     res.violation(f"C12:typed-query-misses-live-object[{H.TYPE_KEY[o['type']]}]", f"object {oid} missing from query for types {op['types']}", ctx)
                 elif kind == "adv":
                     clock.advance(op["dt"])
+                elif kind == "set_back":
+                    clock.t -= op["dt"]
+                    res.count("clock_set_back")
                 elif kind == "maint":
                     try:
                         ldm.ldm_maintenance.collect_trash()
